@@ -23,25 +23,60 @@ def cloud(env, name, n, d):
     return T.stack([env.vec(f'{name}{i}', d) for i in range(n)], 0)
 
 
-@obligation('C18.camera', functions=[f'{GEO}:cart2homo', f'{GEO}:homo2cart', f'{GEO}:point2pixel', f'{GEO}:pixel2point', f'{GEO}:reprojerr'], max_paths=32)
-def camera(env):
+@obligation('C18.homo2cart.scale', functions=[f'{GEO}:homo2cart', f'{GEO}:cart2homo'], max_paths=64)
+def homo_scale(env):
+    geo = env.load(GEO); T = env.T
+    P = cloud(env, 'P', 1, 3)
+    # homogeneous coordinates are defined up to scale: any non-zero scale, however small (far below machine epsilon), gives the same point
+    sc = env.scalar('w_scale', positive=True, regimes=('generic', 'tiny', 'small'))[0]
+    env.assume('the scale is a normal floating-point number (above the smallest normal of the dtype, far below eps allowed)', sc >= T.finfo(P.dtype).tiny)
+    env.eq('homo2cart is independent of the homogeneous scale', geo.homo2cart(geo.cart2homo(P) * sc), P)
+    env.eq('... of either sign', geo.homo2cart(geo.cart2homo(P) * (-sc)), P)
+
+
+def _camera_setup(env, extrinsics=True):
     geo = env.load(GEO); pp = env.load('pypose'); T = env.T
-    P = cloud(env, 'P', 2, 3)
-    env.eq('homo2cart(cart2homo(p)) = p', geo.homo2cart(geo.cart2homo(P)), P)
     fx, fy = env.scalar('fx', positive=True, regimes=('generic',))[0], -env.scalar('fy_neg', positive=True, regimes=('generic',))[0]
     cx, cy = env.scalar('cx')[0], env.scalar('cy')[0]
     O = fx * 0
     K = T.stack([T.stack([fx, O, cx]), T.stack([O, fy, cy]), T.stack([O, O, O + 1])])
+    if not extrinsics:
+        return geo, T, K, (fx, fy, cx, cy)
+    P = cloud(env, 'P', 2, 3)
     X = lie(pp, 'SE3', group_elem(env, 'SE3', 'X'))
     Pc = X.unsqueeze(-2) @ P
     tiny = env.eps(P) ** 4
     env.assume('points are off the camera plane (|z| >= tiny)', (Pc[:, 2].abs() >= tiny).all() if not env.sym else (Pc[:, 2].abs() >= tiny))
+    return geo, T, K, (fx, fy, cx, cy), P, X, Pc
+
+
+CAMF = [f'{GEO}:cart2homo', f'{GEO}:homo2cart', f'{GEO}:point2pixel', f'{GEO}:pixel2point', f'{GEO}:reprojerr']
+
+
+# the camera contract is split into three obligations that run in parallel (one obligation took 30 s idle and up to 150 s on a loaded
+# machine, close to the per-obligation limit); the clauses are the ones of the former single obligation, none dropped
+@obligation('C18.camera', functions=CAMF, max_paths=32, timeout=400)
+def camera(env):
+    geo, T, K, (fx, fy, cx, cy), P, X, Pc = _camera_setup(env)
+    env.eq('homo2cart(cart2homo(p)) = p', geo.homo2cart(geo.cart2homo(P)), P)
     pix = geo.point2pixel(P, K, X)
     env.eq('pinhole projection: u = fx x/z + cx, v = fy y/z + cy', pix, T.stack([fx * Pc[:, 0] / Pc[:, 2] + cx, fy * Pc[:, 1] / Pc[:, 2] + cy], -1))
     env.eq('pixel2point inverts point2pixel given the depth', geo.pixel2point(pix, Pc[:, 2], K), Pc)
+    env.safe('defined', pix)
+
+
+@obligation('C18.camera.reprojerr', functions=CAMF, max_paths=32, timeout=400)
+def camera_reproj(env):
+    geo, T, K, (fx, fy, cx, cy), P, X, Pc = _camera_setup(env)
+    pix = T.stack([fx * Pc[:, 0] / Pc[:, 2] + cx, fy * Pc[:, 1] / Pc[:, 2] + cy], -1)       # the pinhole projection (C18.camera: = point2pixel)
     env.eq('reprojection error of projected pixels is zero', geo.reprojerr(P, pix, K, X), pix * 0)
     env.eq('reprojection error (norm) is zero', geo.reprojerr(P, pix, K, X, reduction='norm'), pix[:, 0] * 0)
-    env.safe('defined', pix)
+
+
+@obligation('C18.camera.pixels', functions=CAMF, max_paths=32, timeout=400)
+def camera_pixels(env):
+    geo, T, K, (fx, fy, cx, cy) = _camera_setup(env, extrinsics=False)
+    tiny = env.eps(K) ** 4
     pix2 = cloud(env, 'px', 2, 2); z = T.stack([env.scalar('z0', positive=True, regimes=('generic',))[0], -env.scalar('z1n', positive=True, regimes=('generic',))[0]])
     env.assume('depths are off the camera plane', z.abs() >= tiny)
     env.eq('point2pixel inverts pixel2point (no extrinsics)', geo.point2pixel(geo.pixel2point(pix2, z, K), K), pix2)
